@@ -160,6 +160,9 @@ def validity(D, n, tol=1e-9):
 
 
 # ---------------------------------------------------------------------------------------
+ctx_case_layout = {}
+
+
 def run(ctx):
     rng = ctx.rng
     cases = []      # implementation cases
@@ -169,8 +172,11 @@ def run(ctx):
     def add(case, lines):
         i = len(cases); cases.append(case)
         j = len(mlines); mlines.extend(lines)
+        if case.get("op") == "est":
+            ctx_case_layout[i] = case.get("layout")
         return i, j
 
+    ctx_case_layout.clear()
     # ---------------- 1. direction increments -------------------------------------------
     for q in range(ctx.n(40, 1000)):
         n = rng.choice(NS_ALL + [rng.randint(8, 180)])
@@ -246,7 +252,8 @@ def run(ctx):
         cols = [[m[k] for _, m in entries] for k in range(4)]
         for method, sm, mv in VARIANTS:
             case = {"op": "est", "method": method, "sm": sm, "dirs": fl(dirs), "shape": list(shape),
-                    "a1": fl(cols[0]), "b1": fl(cols[1]), "a2": fl(cols[2]), "b2": fl(cols[3]), "single": True}
+                    "a1": fl(cols[0]), "b1": fl(cols[1]), "a2": fl(cols[2]), "b2": fl(cols[3]), "single": True,
+                    "layout": gen_layout(rng, npt), "f32": q % 3 == 0}
             lines = []
             if mv is not None:
                 for _, m in entries:
@@ -420,6 +427,24 @@ def evaluate(ctx, post, impl, mod):
             eval_spec(ctx, item, impl)
 
 
+def gen_layout(rng, npt):
+    """how the moment arrays of a batch of npt points are handed to the library: None = C-ordered array of
+    the case's own shape; otherwise the same values with the leading dimensions split in three and/or in
+    Fortran order (a transposed view of data stored frequency-first) or as a strided slice of a larger array"""
+    q = rng.random()
+    if q < 0.45:
+        return None
+    divs = [d for d in range(1, npt + 1) if npt % d == 0]
+    big = [d for d in divs if 1 < d < npt] or divs
+    a = rng.choice(big)
+    rest = npt // a
+    bd = [d for d in range(1, rest + 1) if rest % d == 0]
+    b = rng.choice([d for d in bd if d > 1] or bd)
+    shape3 = [a, b, rest // b]
+    rng.shuffle(shape3)
+    return {"shape": shape3, "order": "F" if q < 0.85 else "strided"}
+
+
 def eval_est(ctx, item, impl, mod):
     _, i, j, method, sm, mv, n, dirs, shape, entries = item
     vname = method if sm is None else "%s/%s" % (method, sm)
@@ -429,6 +454,9 @@ def eval_est(ctx, item, impl, mod):
             "a1": [m[0] for _, m in entries], "b1": [m[1] for _, m in entries],
             "a2": [m[2] for _, m in entries], "b2": [m[3] for _, m in entries]}
     ctx.tally("shape-rank-%d" % len(shape))
+    lay = ctx_case_layout.get(i)
+    ctx.tally("moment-array-layout:%s" % ("C" if not lay else "%s-rank-%d" % (lay["order"], len(lay["shape"]))))
+    rep0["memory_layout_of_moment_arrays"] = lay or "C order, shape as given"
     if err_of(im):
         for _ in entries:
             ctx.count([vname, n, _[1]])
@@ -439,6 +467,25 @@ def eval_est(ctx, item, impl, mod):
         return
     out = unfl(im["out"])
     line = j
+    # ---- single-precision moment arrays (a spectrum loaded from a float32 file): same answer as the same
+    # values in double precision, up to single-precision rounding (measured <= 4e-7 of the peak)
+    f32 = im.get("f32")
+    if f32 is not None:
+        ctx.tally("float32-moment-arrays:%s" % vname)
+        if err_of(f32):
+            ctx.oracle_fail("%s raised %s for float32 moment arrays: %s" % (vname, f32["error"], f32["msg"]),
+                            dict(rep0, dtype="float32"), key=None)
+        else:
+            for e, (dv, (mk, m)) in enumerate(zip(unfl(f32), entries)):
+                # the deviation is judged only where single-precision rounding of the inputs cannot matter much:
+                # closed-form estimators (MEM, MEM2 first guess) on moments well inside the unit disc.  Iterative
+                # solvers on nearly unrealisable moments amplify a rounding of the first guess (measured 8 %).
+                inside = (not any(math.isnan(v) for v in m)) and m[0] ** 2 + m[1] ** 2 < 0.6 and m[2] ** 2 + m[3] ** 2 < 0.6
+                lim = 1e-3 if (inside and mk not in ("hard", "nan") and sm in (None, "approximate")) else float("inf")
+                if dv > lim:
+                    ctx.oracle_fail("%s: float32 moment arrays give a different distribution than the same values "
+                                    "as float64 (entry %d, relative deviation %r)" % (vname, e, dv),
+                                    dict(rep0, entry=e, moments=m, dtype="float32"))
     for e, (mk, m) in enumerate(entries):
         D = out[e * n:(e + 1) * n]
         isnan = any(math.isnan(v) for v in m)
@@ -610,7 +657,16 @@ def replay(ctx, obj):
         for method, sm in variants:
             case = {"op": "est", "method": method, "sm": sm, "dirs": fl(dirs), "shape": list(shape),
                     "a1": fl(cols[0]), "b1": fl(cols[1]), "a2": fl(cols[2]), "b2": fl(cols[3]), "single": True}
+            lay = inp.get("memory_layout_of_moment_arrays")
+            if isinstance(lay, dict):
+                case["layout"] = lay
+            if inp.get("dtype") == "float32":
+                case["f32"] = True
             r = ctx.impl("C05.py", {"cases": [case]})["results"][0]
+            if not err_of(r) and err_of(r.get("f32")):
+                print("REPLAY %s/%s float32 moment arrays: raised %s" % (method, sm, r["f32"]["error"]))
+                ctx.oracle_fail("raised %s for float32 moment arrays" % r["f32"]["error"], inp)
+                continue
             if err_of(r):
                 print("REPLAY %s/%s: raised %s: %s" % (method, sm, r["error"], r["msg"]))
                 ctx.oracle_fail("raised %s" % r["error"], inp)
